@@ -546,3 +546,82 @@ def reuse_ops(rng, n):
             second = vec.rand_v2(rng, 0) if rng.chance(1, 3) else v2nd
             ops.append("RD2 %s %s %s" % (LV[L], hx(first), hx(second)))
     return ops
+
+
+def double_edits3(rng, nseeds, per_seed, kind="D3"):
+    """two independent single edits applied to one valid vector (a bad value and a foreign name, a duplicate and a malformed
+    token, ...): the reported sentinel must still be exactly one and name a defect that is present (C11), whatever the
+    order in which the two defects occur"""
+    ops = []
+    for L, ver, t in seeds_v3(rng, nseeds):
+        base = list(t)
+        for _ in range(per_seed):
+            tt = list(base)
+            for _e in range(2):
+                i = rng.below(len(tt))
+                name, _, val = tt[i].partition(":")
+                k = rng.below(9)
+                if k == 0:
+                    tt[i] = name + ":" + rng.choice(["0", "Q", val.lower(), val + val, ""])
+                elif k == 1:
+                    tt.insert(i, rng.choice(vec.ALL_NAMES + ["ZZ", "av", "X"]) + ":" + rng.choice(vec.ALL_CODES))
+                elif k == 2:
+                    tt.insert(rng.below(len(tt) + 1), tt[i])
+                elif k == 3:
+                    tt[i] = name + val
+                elif k == 4:
+                    tt[i] = name + "::" + val
+                elif k == 5:
+                    tt.insert(i, "")
+                elif k == 6:
+                    del tt[i]
+                elif k == 7:
+                    tt[i] = name.lower() + ":" + val
+                else:
+                    tt[i] = name + ":" + val + ":" + val
+                if not tt:
+                    break
+            pre = "CVSS:" + ver if rng.chance(9, 10) else rng.choice(["CVSS:3.2", "CVSS", "cvss:3.1", ""])
+            s = "/".join([pre] + tt)
+            ops.append(_op(kind, L, s))
+            o = rng.below(3)
+            if o != L:
+                ops.append(_op(kind, o, s))
+    return ops
+
+
+def double_edits2(rng, nseeds, per_seed, kind="D2"):
+    ops = []
+    for b, t, e in seeds_v2(rng, nseeds):
+        base = b + t + e
+        for _ in range(per_seed):
+            tt = list(base)
+            for _e in range(2):
+                if not tt:
+                    break
+                i = rng.below(len(tt))
+                name, _, val = tt[i].partition(":")
+                k = rng.below(9)
+                if k == 0:
+                    tt[i] = name + ":" + rng.choice(["0", "Q", val.lower(), val + val, ""])
+                elif k == 1:
+                    tt.insert(i, rng.choice(vec.ALL_NAMES + ["ZZ", "av"]) + ":" + rng.choice(vec.ALL_CODES))
+                elif k == 2:
+                    tt.insert(rng.below(len(tt) + 1), tt[i])
+                elif k == 3:
+                    tt[i] = name + val
+                elif k == 4:
+                    j = rng.below(len(tt))
+                    tt[i], tt[j] = tt[j], tt[i]
+                elif k == 5:
+                    tt.insert(i, "")
+                elif k == 6:
+                    del tt[i]
+                elif k == 7:
+                    tt[i] = name.lower() + ":" + val
+                else:
+                    tt[i] = name + ":" + val + ":" + val
+            s = "/".join(tt)
+            for L in range(3):
+                ops.append(_op(kind, L, s))
+    return ops
